@@ -226,10 +226,15 @@ def reg(pid, layers, assumptions=None):
     PROPS[pid] = {"layers": layers, "assumptions": COMMON_ASSUMPTIONS + (assumptions or [])}
 
 
-def c01_layers(env):
-    ls = tzmon_layers(env)
-    ls.append(miri_layer(env, 0.0007))
-    return ls
+def std_layers(miri_scale):
+    def f(env):
+        ls = tzmon_layers(env)
+        ls.append(miri_layer(env, miri_scale))
+        return ls
+    return f
 
 
-reg("C01", c01_layers)
+reg("C01", std_layers(0.0007))
+reg("C02", std_layers(0.0005))
+reg("C16", std_layers(0.0005))
+reg("C18", std_layers(0.02))
